@@ -20,13 +20,15 @@ FAULT_KIND = {"nonProcedure": "nonProcedure", "arity": "arity", "unbound": "unbo
 
 
 class Gen:
-    def __init__(self, rng, ticks=False, derived=True, max_depth=4, spelling=None):
+    def __init__(self, rng, ticks=False, derived=True, max_depth=4, spelling=None, loops=True):
         self.rng = rng
         # spelling: None = mixed; or dict(define='sugar'|'lambda', call='direct'|'apply',
         # params='fixed'|'rest') to force one of the equivalent spellings everywhere. The random
         # stream consumed does not depend on it, so two generators with the same seed and different
         # spellings produce the same program in two spellings.
         self.spelling = spelling or {}
+        # loops=False: no recursive procedures (for streams that are mutated afterwards: a mutated loop may never end)
+        self.loops = loops
         self.ticks = ticks
         self.derived = derived
         self.max_depth = max_depth
@@ -283,7 +285,7 @@ class Gen:
                     forms.append("(set! %s %s)" % (r.choice(ints), self.int_(env, 2)))
                 else:
                     forms.append(self.int_(env, 2))
-            elif k < 0.67:
+            elif k < 0.67 and self.loops:
                 nm = self.fresh("h")
                 # a bounded loop through tail calls
                 forms.append("(define (%s n acc) (if (= n 0) acc (%s (- n 1) (+ acc %s))))" % (nm, nm, self.int_(env + [("n", "int"), ("acc", "int")], 1)))
@@ -300,7 +302,7 @@ class Gen:
                 wrap = r.choice(["%s", "(if (< 0 1) %s 0)", "(begin 0 %s)", "(when #t %s)", "(cond (#f 0) (else %s))"])
                 forms.append("(define (%s %s %s) %s)" % (nm, a, b, wrap % ("(let ((%s %s) (%s %s)) %s)" % (a, i1, b, i2, body))))
                 forms.append("(%s %d %d)" % (nm, r.randrange(0, 9), r.randrange(0, 9)))
-            elif k < 0.72:
+            elif k < 0.72 and self.loops:
                 # a tail loop whose operands create closures over the loop variables; the closures are
                 # called only after the loop has finished (each must still see its own iteration's binding)
                 nm = self.fresh("b")
